@@ -358,7 +358,8 @@ def run_check(pid, mod, tier, seed, replay):
         print('VIOLATION property=%s replay=%s no-failing-input-found' % (pid, path))
         return 1
     # ---- run phase
-    thorough_search = bool(broken)
+    FAST = bool(os.environ.get('VERIF_FAST'))      # (tools/cross_matrix.sh: verdict only — no deep search, no shrinking)
+    thorough_search = bool(broken) and not FAST
     streams = P['streams']
     known = load_known_findings(pid)
     known_printed = []
@@ -543,6 +544,7 @@ def _fails(pid, stream, case, against):
 
 def shrink_history(pid, stream, case, against='model', budget=150):
     """delta debugging on the op list (ops separated by ' ; '); keeps the first token if it is a header"""
+    if os.environ.get('VERIF_FAST'): raise RuntimeError('no shrinking in fast mode')
     parts = case.split(' ; ')
     head = []
     if parts and '=' in parts[0] and ' ' not in parts[0]:
